@@ -82,6 +82,8 @@ type Env struct {
 
 	sharedSess []lungo.ISession
 	closing    bool // Engine.Close has been invoked by the plan
+	closed     bool // Engine.Close has returned
+	closedAt   time.Duration
 }
 
 type simosCrash = simos.Crash
@@ -182,6 +184,15 @@ func (s *SimStore) Store(c *lungo.Catalog) error {
 		e.fault("store-latency")
 		time.Sleep(time.Duration(f.Ms) * time.Millisecond)
 		simrt.Yield("store:wake")
+	}
+	if has && f.Kind == "store-slow-fail" {
+		// the store works on the image for a while and then fails: nobody may see the attempt meanwhile
+		e.fault("store-slow-fail")
+		e.attempt = c
+		time.Sleep(time.Duration(f.Ms) * time.Millisecond)
+		simrt.Yield("store:wake")
+		e.logf("store call %d: injected failure after %dms inside the store", n, f.Ms)
+		return ErrInjected
 	}
 	if has && f.Kind == "store-before" {
 		e.fault("store-before")
